@@ -202,6 +202,44 @@ class Config:
             self.cache.pop((k2, B, 2), None)
         return out, (wt, res)
 
+    def deep_cases(self):
+        """Tree operands of three and more levels THINNED by deletions (16 keys at node sizes 2/2, then all but a few
+        removed from the top / from the bottom / from both ends: a root with one interior child over several leaves,
+        emptied first leaves, single-child chains) against every operand kind - shapes the subset enumeration (at most
+        5 keys) never reaches."""
+        base = list(range(101, 117))
+        for k in base:
+            self.idx[k] = (k - 101) % 5
+        plans = {"top": [k for k in reversed(base) if k > 104],
+                 "bottom": [k for k in base if k < 113],
+                 "both-ends": [k for k in base if k < 106] + [k for k in reversed(base) if k > 110],
+                 "every-other-then-top": base[1::2] + [k for k in reversed(base[0::2]) if k > 107]}
+        ws = weights_of(self.fam)[:4]
+        for plan, dels in plans.items():
+            rest = tuple(k for k in base if k not in dels)
+            for kind in ("BTree", "TreeSet"):
+                for side in (1, 2):
+                    t = self.cls[kind](base) if kind in SETS else self.cls[kind](dict(self.items(kind, tuple(base), side)))
+                    for k in dels:
+                        (t.remove(k) if kind in SETS else t.__delitem__(k))
+                    self.cache[(kind, rest, side)] = t
+            small = [(rest[0], rest[-1]), (rest[1], 116 if 116 not in rest else 101), rest]
+            for fname in self.fn:
+                for kind in ("BTree", "TreeSet"):
+                    for k2 in BT:
+                        for B in small:
+                            B = tuple(sorted(set(B)))
+                            for w in ws:
+                                for (a, ka, b, kb) in ((rest, kind, B, k2), (B, k2, rest, kind)):
+                                    fails, got = self.check(fname, ka, kb, a, b, w, U=base)
+                                    if fails is None:
+                                        continue
+                                    self.evals += 1
+                                    self.nontrivial += 1
+                                    for clause, msg in fails:
+                                        self.report(fname, ka, kb, "thinned-deep-tree:" + clause, a, b, w,
+                                                    msg + " [operand of %d keys thinned from 16 (%s) at node sizes 2/2]" % (len(rest), plan))
+
     def case(self, fname, k1, k2, A, B, w):
         fails, got = self.check(fname, k1, k2, A, B, w)
         if fails is None:
@@ -233,6 +271,7 @@ def run_config(args):
                     for B in (subsets if k2 != "None" else [()]):
                         for w in ws:
                             c.case(fname, k1, k2, A, B, w)
+    c.deep_cases()
     return c.evals, c.nontrivial, [(f, n) for f, n in c.fail.values()], c.sample, c.nonekey
 
 
@@ -249,7 +288,9 @@ def main():
               "sizes 2/2, None} x all pairs (A, B) of subsets of %d keys (incl. the key extremes; object keys: incl. None, the "
               "smallest object key, in A, in B, in both, in neither) x weights {default, small, "
               "0, negative (signed), > 32 bit (64-bit values) / > 2**20 (32-bit), fractional (float values)}; cases whose "
-              "products or sums leave the value type are not generated; C and Python; families %s" % (nkeys, ",".join(fams)),
+              "products or sums leave the value type are not generated; PLUS tree operands of 3+ levels thinned by deletions "
+              "(16 keys, four deletion plans: a root with one interior child, emptied first leaves) against every operand kind, "
+              "both argument orders, four weight pairs; C and Python; families %s" % (nkeys, ",".join(fams)),
         rule="case = one call and its contract (weight, kind, newness, keys, len/membership, values == v1*w1 + v2*w2 by the "
              "documented table, lookups, operands unmodified); distinct non-trivial = cases with two non-empty operands "
              "(the enumeration never repeats a case)",
